@@ -166,6 +166,20 @@ CHECKS = {
         note="identity of serialized keys between the two routes and decompression bounds are not yet covered here "
              "(see DESIGN.md C15); c, L < 2^40",
         tech="MIR -> SMT-LIB bit-vectors (z3 QF_BV)"),
+    "C16": dict(
+        cat="other", ref="§10.5 C16",
+        text="Bounded symbolic verdict: the real encoders and decoders of Prover, Verifier, Proof and "
+             "PublicParameters (and the key / polynomial / evaluation codecs below them) run on symbolic contents "
+             "(SRS secret and bases, every selector constant, blinders, an arbitrary 26-component proof, arbitrary "
+             "public inputs); for all values of those contents decode(encode(x)) re-encodes identically, the decoded "
+             "prover computes the same proof terms from the same draws and the decoded verifier evaluates the same "
+             "acceptance comparisons on an honest and on an arbitrary proof.",
+        note="listed circuit shapes only (<= 46 rows quick, <= 2110 rows thorough; 0..5 public inputs; with and "
+             "without range/logic gates); deciding step is equality of hash-consed terms (syntactic case of the "
+             "field identity, no SMT call needed on the current tree); bit-level canonicity of the dependency's "
+             "scalar/point codecs is assumed",
+        tech="symbolic execution of the real (de)serialization, proving and verification code (symbolic field + "
+             "dlog groups + random-oracle transcript); term identity, native replay of any difference"),
 }
 
 NOT_APPLICABLE = {
